@@ -1020,6 +1020,9 @@ def compose_scope(res, pid, rng, tier):
                 if base.words is not None and r % 2:
                     # words that also occur in what earlier stages write (place holders, hex digits)
                     base.words = list(base.words) + ["net", "move", "conan"]
+                if base.words is not None:
+                    # words that are pieces of address text (hextets): the address stages come first whether or not secrets are on
+                    base.words = list(base.words) + ["cafe", "beef"]
                 if base.asn is not None and base.words is not None and r % 4 == 3:
                     base.words = list(base.words) + [base.asn[0]]          # the same token as sensitive word and as AS number
                 text = "".join(mixed_text(rng, base, 30))
@@ -1027,6 +1030,8 @@ def compose_scope(res, pid, rng, tier):
                 text += "peer 20.1.2.3 2001:db8::1 as 65001 site sea-hq key-string 7 0822455D0A16\n"
                 text += " neighbor ::ffff:1.2.3.4 remote-as 12\n description seattle 65001 11.22.33.44\n"
                 text += " gw 2001:db8::9.8.7.6 via ::11.22.33.44 metric 100\n"
+                text += "ipv6 address 2001:db8:cafe:12::1/64\n route fd00:beef::7 via 2001:db8:Cafe::beef\n"
+                text += 'description "uplink to Net internet";\n set snmp description "core ethernet";\n'   # a reserved keyword next to enclosing text at the edge of the line
                 for rw in (base.reserved or []):
                     text += "snmp-server community %s ro\nusername bob password %s\n" % (rw, rw)
                 try:
